@@ -219,8 +219,10 @@ def run_family_l(prop, tier, seed, report, scratch, binpath, plans):
             states += res.distinct
             transitions += res.generated
         if plan.get("max_scripts") and len(scripts) > plan["max_scripts"]:
+            # (TLC prints the histories in an order that depends on its worker threads: sort first, so that the sample is a
+            #  function of the seed alone)
             rnd = random.Random(seed)
-            scripts = rnd.sample(scripts, plan["max_scripts"])
+            scripts = rnd.sample(sorted(scripts), plan["max_scripts"])
             exhaustive = False
         log("  %s: TLC %d generated / %d distinct in %.1fs, %d scripts" %
             (plan["name"], res.generated, res.distinct, time.time() - t0, len(scripts)))
